@@ -1,6 +1,6 @@
 (* Correspondence for C08: library writer -> library reader -> library writer. *)
-From PNC Require Export Base.Util Base.Words Model.Uamiv Model.Lbdy.
-From PNC Require Import Corr.C09.
+From PNC Require Export Base.Util Base.Words Model.Uamiv Model.Lbdy Model.One3d.
+From PNC Require Export Corr.C09.
 Local Open Scope Z_scope.
 
 Inductive case_t :=
@@ -10,6 +10,9 @@ Inductive case_t :=
     (w1 : list word)                (* first write *)
     (open_ok : bool) (v : view) (tflag etflag : list (Z * Z))   (* reading w1 back *)
     (w2 : list word)                (* writing the re-read file again *)
+(* one3d family: reference-encoded file -> library reader -> ncf2one3d; same record as Corr/C09.v ocase.
+   S additionally demands the re-written file to be byte-identical to the original *)
+| OD8 (c : ocase)
 | R8 (ref : list word) (recs : list (list word)) (w_ok : bool) (written : list word)
 (* lateral-boundary file (Model/Lbdy.v): in-memory file WITHOUT _boundary_def (the writer generates the edge
    definitions and always derives the end dates) -> library writer -> library reader -> library writer *)
@@ -50,6 +53,7 @@ Definition check (c : case_t) : verdict :=
      w_ok && zlist_eqb written ref
      && match unframe_all written with Some rs => zll_eqb rs recs | None => false end,
      0%nat)
+  | OD8 c => (ocheckF c, ocheckS c && zlist_eqb (oc_written c) (oc_ref c), oregion c)
   | WL l hours w1_ok w1 open_ok v tflag etflag py_ok w2_ok w2 =>
     let bh := map fst hours in
     let iu := lb_derive l bh true in
